@@ -25,6 +25,24 @@ CfgOf(c) == MkCfg(Flag(c, "c"), Flag(c, "tab"), IF Has(c, "ind") THEN c.ind ELSE
                   IF Has(c, "colors") THEN c.colors ELSE <<>>,
                   IF Has(c, "raw") THEN c.raw ELSE "")
 
+\* Deeply nested values arrive as a flat preorder node list [t |-> "flat", toks |-> <<...>>] (the JSON reader of TLC
+\* refuses documents nested deeper than 255): a container node carries its size n (and its keys), its children follow.
+RECURSIVE BuildAt(_, _)
+BuildAt(toks, i) ==      \* [v |-> the value rooted at node i, next |-> index after its subtree]
+  LET t == toks[i] IN
+  IF t.t = "arr" THEN
+     LET RECURSIVE Kids(_, _, _)
+         Kids(j, k, acc) == IF k > t.n THEN [v |-> VArr(acc), next |-> j]
+                            ELSE LET c == BuildAt(toks, j) IN Kids(c.next, k + 1, Append(acc, c.v))
+     IN Kids(i + 1, 1, <<>>)
+  ELSE IF t.t = "obj" THEN
+     LET RECURSIVE Kids(_, _, _)
+         Kids(j, k, acc) == IF k > t.n THEN [v |-> VObj(acc), next |-> j]
+                            ELSE LET c == BuildAt(toks, j) IN Kids(c.next, k + 1, Append(acc, <<t.keys[k], c.v>>))
+     IN Kids(i + 1, 1, <<>>)
+  ELSE [v |-> t, next |-> i + 1]
+Val(x) == IF x.t = "flat" THEN BuildAt(x.toks, 1).v ELSE x
+
 \* is the value one the specification speaks about
 RECURSIVE InModel(_)
 InModel(v) ==
@@ -60,7 +78,7 @@ LibChecks(v, r, i) ==
      Check("attext", i, r.attext = ts, ts.b),
      Check("ijson", i, r.ijson = InterpOf(<<60>>, tj, <<62>>), e),
      Check("itext", i, r.itext = InterpOf(<<60>>, ts, <<62>>), ts.b),
-     Check("roundtrip", i, r.rt = Norm(v), Enc(Norm(v))),                 \* tojson|fromjson
+     Check("roundtrip", i, Val(r.rt) = Norm(v), Enc(Norm(v))),                 \* tojson|fromjson
      \* the property stated on the real bytes, with the specification's reader
      Check("marshal.wellformed", i,
          /\ r.marshal.t = "bytes"                            \* not an error / panic record
@@ -135,7 +153,7 @@ YinChecks(r) ==
 
 \* records -----------------------------------------------------------------------
 RecChecks(rec) ==
-  LET vs == rec.vs IN
+  LET vs == [i \in 1..Len(rec.vs) |-> Val(rec.vs[i])] IN
   (IF Has(rec, "lib") THEN FlatF([i \in 1..Len(vs) |-> LibChecks(vs[i], rec.lib[i], i)], Len(vs)) ELSE <<>>)
     \o (IF Has(rec, "cli") THEN FlatF([j \in 1..Len(rec.cli) |-> CliChecks(vs, rec.cli[j], j)], Len(rec.cli)) ELSE <<>>)
     \o (IF Has(rec, "dbg") THEN FlatF([j \in 1..Len(rec.dbg) |-> DbgChecks(vs, rec.dbg[j], j)], Len(rec.dbg)) ELSE <<>>)
@@ -144,7 +162,7 @@ RecChecks(rec) ==
 
 RecVerdict(rec) ==
   IF Has(rec, "harness_error") \/ ~Has(rec, "vs") THEN [id |-> rec.id, v |-> "tool", n |-> 0, fails |-> <<>>]
-  ELSE IF \E i \in 1..Len(rec.vs) : ~InModel(rec.vs[i]) THEN [id |-> rec.id, v |-> "oom", n |-> 0, fails |-> <<>>]
+  ELSE IF \E i \in 1..Len(rec.vs) : ~InModel(Val(rec.vs[i])) THEN [id |-> rec.id, v |-> "oom", n |-> 0, fails |-> <<>>]
   ELSE LET cs == RecChecks(rec)
            fails == SelectSeq(cs, LAMBDA c : ~c.ok)
        IN [id |-> rec.id, v |-> IF Len(fails) = 0 THEN "agree" ELSE "mismatch", n |-> Len(cs), fails |-> fails]
